@@ -33,6 +33,7 @@ type call struct {
 	errs      []string
 	cancelled bool
 	returned  bool
+	held      []rueidis.RedisResult // the result slice a DoMulti returned (the caller owns it from then on)
 	dur       time.Duration
 }
 
@@ -168,7 +169,9 @@ func runEpisode(seed uint64, cfg episodeCfg) ([]*call, *Server, error) {
 						cl.cmds = append(cl.cmds, wcmd{"ECHO", t, false, false, 2})
 						cl.tags = append(cl.tags, t)
 					}
-					for _, r := range client.DoMulti(ctx, cs...) {
+					rs := client.DoMulti(ctx, cs...)
+					cl.held = rs
+					for _, r := range rs {
 						p, e := payloadOf(r)
 						cl.got, cl.errs = append(cl.got, p), append(cl.errs, e)
 					}
@@ -225,6 +228,15 @@ func runEpisode(seed uint64, cfg episodeCfg) ([]*call, *Server, error) {
 		client.Close()
 		return calls, srv, fmt.Errorf("hang: calls did not return within 20s")
 	}
+	// let the replies of abandoned calls arrive: wait until the server log has been quiet for a moment
+	for last, quiet := -1, 0; quiet < 3; {
+		time.Sleep(2 * time.Millisecond)
+		if n := len(srv.Events()); n == last {
+			quiet++
+		} else {
+			last, quiet = n, 0
+		}
+	}
 	client.Close()
 	return calls, srv, nil
 }
@@ -237,6 +249,9 @@ func readerOps(conn int, evs []Event, calls []*call, observed map[int]int, emit 
 	for i, e := range evs {
 		switch e.Kind {
 		case "c":
+			if len(e.Argv) == 0 {
+				continue // flagged by the wire-integrity oracle
+			}
 			name := strings.ToUpper(e.Argv[0])
 			if prevUnsub && name == "PING" && len(e.Argv) == 1 {
 				prevUnsub = false
@@ -322,6 +337,45 @@ func analyse(c *Ctx, calls []*call, srv *Server, epi string) {
 	for _, e := range srv.Events() {
 		if e.Kind == "m" && e.MKind == "reply" && e.Tag != "" {
 			replied[e.Tag] = true
+		}
+	}
+	// C33: every command the server received is exactly a command some call issued, at most once (retries are off)
+	issued := map[string]int{}
+	for _, cl := range calls {
+		for _, w := range cl.cmds {
+			if w.tag != "" {
+				issued[w.name+" "+w.tag]++
+			}
+		}
+	}
+	for _, e := range srv.Events() {
+		if e.Kind != "c" {
+			continue
+		}
+		if len(e.Argv) == 0 {
+			c.Fail("pipe:wire-empty-command", epi, "the server received an empty command (a command was recycled before it was written)")
+			continue
+		}
+		name := strings.ToUpper(e.Argv[0])
+		if len(e.Argv) < 2 || name == "CLIENT" || name == "PING" || name == "MULTI" || name == "EXEC" {
+			continue
+		}
+		k := name + " " + e.Argv[1]
+		if issued[k] <= 0 {
+			c.Fail("pipe:wire-command-not-issued", epi, fmt.Sprintf("the server received %q, which no call issued (or more often than issued)", e.Argv))
+		}
+		issued[k]--
+	}
+	// C01: a result set handed back to an abandoned caller must not change afterwards
+	for _, cl := range calls {
+		if cl.held == nil || !cl.returned {
+			continue
+		}
+		for i, r := range cl.held {
+			p, e := payloadOf(r)
+			if i < len(cl.got) && (p != cl.got[i] || e != cl.errs[i]) {
+				c.Fail("pipe:result-changed-after-return", epi, fmt.Sprintf("call %d (%s, cancelled=%v) result %d was %q/%q when DoMulti returned and is %q/%q after the late replies arrived", cl.id, cl.kind, cl.cancelled, i, cl.got[i], cl.errs[i], p, e))
+			}
 		}
 	}
 	observed := map[int]int{} // mid -> command id
